@@ -618,9 +618,12 @@ class GenerativeFunction(Generic[R], Pytree):
         request = Update(
             constraint,
         )
-        tr, w, rd, bwd = request.edit(
+        # Dispatch on `self` rather than on the trace's generative function, so that wrappers
+        # (closures holding stored / keyword arguments) get to supply their arguments.
+        tr, w, rd, bwd = self.edit(
             key,
             trace,
+            request,
             argdiffs,
         )
         assert isinstance(bwd, Update), type(bwd)
